@@ -275,8 +275,136 @@ fn run_strong_families_full(e: &Sexp) -> R<Sexp> {
     }
 }
 
+// ---- C07verify: the simplification steps INSIDE verify.  Pairs on which the pre-gamma pass must keep
+// the here-and-there meaning: double negations in bodies and choice heads are frequent, the programs
+// are tiny and arithmetic-free (the fragment on which sem_c03_full / sem_c19_strong_full are exact),
+// and the right program is mostly the left one with ONE negation depth or head kind changed
+// (`not not a` <-> `a` <-> `not a`, `{a}` <-> `a`, a rule dropped): claims that are true classically
+// and false in HT, or the other way round.
+
+fn nn_atom(rng: &mut Rng, preds: &[(&str, usize)]) -> asp::Atom {
+    let (p, n) = *rng.pick(preds);
+    let terms = (0..n)
+        .map(|_| match rng.weighted(&[6, 2, 2]) {
+            0 => asp::Term::Variable(asp::Variable("X".to_string())),
+            1 => asp::Term::PrecomputedTerm(asp::PrecomputedTerm::Symbol("a".to_string())),
+            _ => asp::Term::PrecomputedTerm(asp::PrecomputedTerm::Numeral(1)),
+        })
+        .collect();
+    asp::Atom { predicate_symbol: p.to_string(), terms }
+}
+fn nn_sign(rng: &mut Rng) -> asp::Sign {
+    match rng.weighted(&[3, 2, 5]) {
+        0 => asp::Sign::NoSign,
+        1 => asp::Sign::Negation,
+        _ => asp::Sign::DoubleNegation,
+    }
+}
+fn nn_rule(rng: &mut Rng, preds: &[(&str, usize)]) -> asp::Rule {
+    let head = match rng.weighted(&[5, 5, 1]) {
+        0 => asp::Head::Basic(nn_atom(rng, preds)),
+        1 => asp::Head::Choice(nn_atom(rng, preds)),
+        _ => asp::Head::Falsity,
+    };
+    let n = rng.weighted(&[2, 5, 3]);
+    let n = if matches!(head, asp::Head::Falsity) { n.max(1) } else { n };
+    let formulas = (0..n)
+        .map(|_| asp::AtomicFormula::Literal(asp::Literal { sign: nn_sign(rng), atom: nn_atom(rng, preds) }))
+        .collect();
+    asp::Rule { head, body: asp::Body { formulas } }
+}
+/// one negation depth or one head kind of `p` changed, or one rule dropped / added
+fn nn_variant(rng: &mut Rng, p: &asp::Program, preds: &[(&str, usize)]) -> asp::Program {
+    let mut q = p.clone();
+    let k = rng.below(q.rules.len());
+    match rng.weighted(&[5, 3, 1, 1, 1]) {
+        0 => {
+            let lits: Vec<usize> = (0..q.rules[k].body.formulas.len()).collect();
+            if lits.is_empty() {
+                q.rules[k].body.formulas.push(asp::AtomicFormula::Literal(asp::Literal { sign: asp::Sign::DoubleNegation, atom: nn_atom(rng, preds) }));
+            } else {
+                let i = *rng.pick(&lits);
+                if let asp::AtomicFormula::Literal(l) = &mut q.rules[k].body.formulas[i] {
+                    l.sign = match l.sign {
+                        asp::Sign::DoubleNegation => if rng.chance(80) { asp::Sign::NoSign } else { asp::Sign::Negation },
+                        asp::Sign::NoSign => asp::Sign::DoubleNegation,
+                        asp::Sign::Negation => asp::Sign::DoubleNegation,
+                    };
+                }
+            }
+        }
+        1 => {
+            q.rules[k].head = match q.rules[k].head.clone() {
+                asp::Head::Choice(a) => asp::Head::Basic(a),
+                asp::Head::Basic(a) => asp::Head::Choice(a),
+                asp::Head::Falsity => asp::Head::Choice(nn_atom(rng, preds)),
+            };
+        }
+        2 => {
+            if q.rules.len() > 1 {
+                q.rules.remove(k);
+            } else {
+                // `p :- not not p.` / `{p}.` against `p :- p.`
+                if let Some(asp::AtomicFormula::Literal(l)) = q.rules[k].body.formulas.first_mut() {
+                    l.sign = asp::Sign::NoSign;
+                }
+            }
+        }
+        3 => q.rules.push(nn_rule(rng, preds)),
+        _ => q.rules.reverse(),
+    }
+    q
+}
+fn verify_pair(rng: &mut Rng) -> (asp::Program, asp::Program) {
+    let preds: &[(&str, usize)] = match rng.below(4) {
+        0 => &[("p", 0)],
+        1 => &[("p", 0), ("q", 0)],
+        2 => &[("p", 0), ("q", 0), ("r", 1)],
+        _ => &[("p", 1), ("q", 0)],
+    };
+    let n = 1 + rng.weighted(&[5, 3, 1]);
+    let mut left = asp::Program { rules: (0..n).map(|_| nn_rule(rng, preds)).collect() };
+    if rng.chance(25) {
+        // the textbook shapes: `p :- not not p.` and `{p}.`
+        let a = nn_atom(rng, &preds[..1]);
+        left.rules[0] = if rng.chance(50) {
+            asp::Rule { head: asp::Head::Basic(a.clone()), body: asp::Body { formulas: vec![asp::AtomicFormula::Literal(asp::Literal { sign: asp::Sign::DoubleNegation, atom: a })] } }
+        } else {
+            asp::Rule { head: asp::Head::Choice(a), body: asp::Body { formulas: vec![] } }
+        };
+    }
+    let right = if rng.chance(85) {
+        nn_variant(rng, &left, preds)
+    } else {
+        asp::Program { rules: (0..n).map(|_| nn_rule(rng, preds)).collect() }
+    };
+    if rng.chance(50) { (left, right) } else { (right, left) }
+}
+fn gen_strong_decompose_verify(rng: &mut Rng) -> Sexp {
+    let (left, right) = verify_pair(rng);
+    let r = if rng.chance(35) { FormulaRepresentation::Mu } else { FormulaRepresentation::TauStar };
+    let dir = t::direction(rng);
+    let dec = t::gen_decomposition(rng);
+    // `verify` simplifies unless --no-simplify is given
+    let simplify = rng.chance(85);
+    let brk = rng.chance(50);
+    l(vec![
+        l(vec![t::repr(&r), conv::direction(&dir), t::decomposition(&dec), conv::boolean(simplify), conv::boolean(brk)]),
+        conv::program(&left),
+        conv::program(&right),
+    ])
+}
+fn gen_strong_families_verify(rng: &mut Rng) -> Sexp {
+    let (left, right) = verify_pair(rng);
+    let r = if rng.chance(35) { FormulaRepresentation::Mu } else { FormulaRepresentation::TauStar };
+    let dir = t::direction(rng);
+    l(vec![l(vec![t::repr(&r), conv::direction(&dir)]), conv::program(&left), conv::program(&right)])
+}
+
 pub fn ops() -> Vec<Op> {
     vec![
+        Op { name: "strong_decompose_verify", generate: gen_strong_decompose_verify, run: run_strong_decompose_full },
+        Op { name: "strong_families_verify", generate: gen_strong_families_verify, run: run_strong_families_full },
         Op { name: "mu", generate: gen_mu, run: run_mu },
         Op { name: "strong_decompose_full", generate: gen_strong_decompose_full, run: run_strong_decompose_full },
         Op { name: "strong_families_full", generate: gen_strong_families_full, run: run_strong_families_full },
